@@ -23,7 +23,9 @@ var wskelCalls = map[string]bool{"Truncate": true, "Seek": true, "Stat": true, "
 // calls whose arguments decide what happens to the file or what user code is told
 var wskelArgs = map[string]bool{"Truncate": true, "Seek": true, "afterFileCreationHook": true, "SetId": true, "writeRecord": true, "write": true, "Rename": true}
 
-var wskelState = []string{"w.currentFile", "w.currentFileName", "w.currentFileSize", "w.currentWarcInfoId", "response.", "res."}
+var wskelState = []string{"w.currentFile", "w.currentFileName", "w.currentFileSize", "w.currentWarcInfoId", "response.", "res.",
+	// how the name on disk is put together (generated name, compression suffix, directory, in-progress suffix) and taken apart again
+	"suffix", "fileName", "path", "finalFileName"}
 
 type skelCfg struct {
 	calls, args map[string]bool
